@@ -180,7 +180,7 @@ pub fn c03_{name}() {{
   let mut want = Want::new();
   {{{model}
   }}
-  crate::cover!(unsafe {{ LEN }} >= 2, "probe saw at least two events");
+  crate::cover!(unsafe {{ LEN }} >= 1, "probe saw at least one event");
   crate::cover!(term == 2, "script ended with an error");
   assert!(want.matches_log(), "{name}: delivered sequence differs from the list semantics");
   assert!(unsafe {{ !GRAMMAR_BROKEN }}, "{name}: event after terminal");
